@@ -116,7 +116,8 @@ class Bound:
 
 
 class Env:
-    def __init__(self, module: Module, parent: "Env | None" = None, cls: ClassInfo | None = None) -> None:
+    def __init__(self, module: Module, parent: "Env | None" = None, cls: ClassInfo | None = None, *, class_body: bool = False) -> None:
+        self.class_body = class_body  # evaluating a class-level assignment: sibling class attributes are in scope
         self.vars: dict[str, Any] = {}
         self.module = module
         self.parent = parent
@@ -158,6 +159,8 @@ class Interp:
         self.ext_handlers: dict[str, Callable[..., Any]] = {}
         self.stubs: dict[str, Callable[..., Any]] = {}  # in-repo function qualname -> replacement (callee boundary of a table)
         self.class_stubs: dict[str, Callable[..., Any]] = {}  # in-repo class qualname -> replacement constructor
+        # virtual file system for path predicates (pure: nothing on disk is touched): {"files": {path: text}, "dirs": set, "order": callable}
+        self.vfs: dict[str, Any] | None = None
 
     # ------------------------------------------------------------------ public
     def call(self, fn: FunctionInfo, *args: Any, **kwargs: Any) -> Any:
@@ -708,6 +711,10 @@ class Interp:
         found, v = env.lookup(name)
         if found:
             return v
+        if env.class_body and env.cls is not None:
+            hit = self.prog.lookup_class_attr(env.cls, name)
+            if hit:
+                return self.eval(hit[1], Env(hit[0].module, None, hit[0], class_body=True))
         return self.global_name(env.module, name)
 
     def global_name(self, mod: Module, name: str) -> Any:
@@ -762,7 +769,7 @@ class Interp:
                     return Bound(m, obj)
                 hit = self.prog.lookup_class_attr(obj.cls, attr)
                 if hit:
-                    return self.eval(hit[1], Env(hit[0].module, None, hit[0]))
+                    return self.eval(hit[1], Env(hit[0].module, None, hit[0], class_body=True))
                 if attr == "__class__":
                     return ClassRef(obj.cls)
             if "__native__" in obj.attrs and hasattr(obj.attrs["__native__"], attr):
@@ -775,7 +782,7 @@ class Interp:
                 return Sym(f"{cls.name}.{attr}", v.value if isinstance(v, ast.Constant) else None)
             hit = self.prog.lookup_class_attr(cls, attr)
             if hit:
-                return self.eval(hit[1], Env(hit[0].module, None, hit[0]))
+                return self.eval(hit[1], Env(hit[0].module, None, hit[0], class_body=True))
             ms = self.prog.lookup_method(cls, attr)
             if ms:
                 return ms[0]
@@ -805,6 +812,30 @@ class Interp:
                 return list(v) if attr == "parents" else v
             if attr in ("with_suffix", "with_name", "relative_to", "is_relative_to", "joinpath", "is_absolute", "as_posix", "with_stem", "match"):
                 return ("native", obj, attr)
+            if self.vfs is not None and attr in ("exists", "is_dir", "is_file", "iterdir", "resolve", "absolute", "read_text"):
+                vfs = self.vfs
+                files, dirs = vfs["files"], vfs["dirs"]
+                if attr == "exists":
+                    return Native(lambda: obj in files or obj in dirs)
+                if attr == "is_dir":
+                    return Native(lambda: obj in dirs)
+                if attr == "is_file":
+                    return Native(lambda: obj in files)
+                if attr in ("resolve", "absolute"):
+                    return Native(lambda *a, **k: obj)
+                if attr == "read_text":
+                    def read_text(*_a, **_k):
+                        if obj not in files:
+                            raise Raised("FileNotFoundError")
+                        return files[obj]
+                    return Native(read_text)
+
+                def iterdir():
+                    if obj not in dirs:
+                        raise Raised("FileNotFoundError" if obj not in files else "NotADirectoryError")
+                    entries = sorted(p for p in [*files, *dirs] if p.parent == obj and p != obj)
+                    return vfs.get("order", lambda x: x)(entries)
+                return Native(iterdir)
             raise AnalysisError(f"path attribute `{attr}` touches the file system or is not modelled")
         if isinstance(obj, ast.AST):
             # a real syntax-tree node built by the rule (pure data): plain field access
